@@ -1,8 +1,8 @@
 //! C07: the interpreter-based simulator (patronus::sim::Interpreter) on generated systems x
 //! operation histories.  One case per line:
 //!   (case ID (sys ...) (ops OP ...))
-//!   OP = (init zero R) | (init random SEED (oracle V ...) (det ok|differs) R) | (set SYM bBITS R) | (step R)
-//!      | (get E R) | (count R) | (snapshot R) | (restore ID R)
+//!   OP = (init zero R) | (init random SEED (oracle V ...) (det ok|differs|crashed) R) | (set SYM bBITS R) | (step R)
+//!      | (get E R) | (count R) | (snapshot R) | (restore K ID R)   -- K: the K-th snapshot taken, ID: the id passed
 //!   R  = (ok) | (bv W bBITS) | (arr IW DW bBITS ...) | (num N) | (panic "file:line")
 //!   V  = bBITS | (arr IW DW bBITS ...)            -- what InitValueGenerator produced, in allocation order
 //! The history is cut after the first panic (the interpreter may be half-updated then).
@@ -85,7 +85,11 @@ fn declared(sys: &TransitionSystem) -> Vec<ExprRef> {
 fn gen_case(rng: &mut Rng, stats: &mut Stats, args: &Args) -> Case {
     let mut ctx = Context::default();
     let wide = rng.chance(2, 5);
-    let widths: Vec<WidthInt> = if let Some(w) = args.get("widths") { w.split(',').map(|x| x.parse().unwrap()).collect() } else if wide { WIDE.to_vec() } else { SMALL.to_vec() };
+    let profile: Vec<WidthInt> = if let Some(w) = args.get("widths") { w.split(',').map(|x| x.parse().unwrap()).collect() } else if wide { WIDE.to_vec() } else { SMALL.to_vec() };
+    // few distinct widths per system, so that states and inputs can read each other
+    let n_widths = rng.range(1, 3) as usize;
+    let widths: Vec<WidthInt> = (0..n_widths).map(|_| *rng.pick(&profile)).collect();
+    stats.bump("distinct_widths_per_system", &format!("{n_widths}"));
     stats.bump("width_profile", if wide { "wide" } else { "small" });
     let cfg = SysCfg {
         max_bv_states: 4,
@@ -116,6 +120,26 @@ fn gen_case(rng: &mut Rng, stats: &mut Stats, args: &Args) -> Case {
         let pos = rng.below(sys.states.len() as u64 + 1) as usize;
         sys.states.insert(pos, State { symbol: sym, init, next });
         stats.inc("second_array_state");
+    }
+    // swap / shift-register shapes: the next value of a state is another state of the same type
+    // (simultaneous update is observable)
+    if sys.states.len() >= 2 && rng.chance(1, 5) {
+        let n = sys.states.len();
+        let rot = rng.chance(1, 2);
+        for k in 0..n {
+            let other = if rot { (k + 1) % n } else { (k + n - 1) % n };
+            let (a, b) = (sys.states[k].symbol, sys.states[other].symbol);
+            if a.get_type(&ctx) == b.get_type(&ctx) && a != b {
+                sys.states[k].next = Some(if rng.chance(1, 2) {
+                    b
+                } else if let Type::BV(_) = a.get_type(&ctx) {
+                    ctx.xor(a, b)
+                } else {
+                    b
+                });
+            }
+        }
+        stats.inc("swap_or_shift_register_shape");
     }
     // init expressions that read the state itself or a later state (sequential initialisation matters)
     if rng.chance(1, 4) {
@@ -333,6 +357,8 @@ fn run_case(id: &str, case: Case, stats: &mut Stats) -> (String, String) {
     let mut txt = String::new();
     let mut key = sys_txt.clone();
     let mut executed = 0usize;
+    // ids the implementation returned, in order: `Restore(k)` restores the k-th snapshot taken
+    let mut returned_ids: Vec<u32> = vec![];
     for op in ops.iter() {
         executed += 1;
         let mut crashed = false;
@@ -368,7 +394,11 @@ fn run_case(id: &str, case: Case, stats: &mut Stats) -> (String, String) {
                                 other.init(*kind);
                                 decl.iter().all(|s| dump_value(&other.get(*s)) == dump_value(&sim.get(*s)))
                             });
-                            if same == Ok(true) { "ok" } else { "differs" }
+                            match same {
+                                Ok(true) => "ok",
+                                Ok(false) => "differs",
+                                Err(_) => "crashed",
+                            }
                         } else {
                             "ok"
                         };
@@ -407,9 +437,10 @@ fn run_case(id: &str, case: Case, stats: &mut Stats) -> (String, String) {
             }
             Op::Get(e) => {
                 stats.bump("ops", "get");
-                let r = guarded(|| sim.get(*e));
+                // the dump reads the returned value through baa: keep it inside the guard
+                let r = guarded(|| dump_value(&sim.get(*e)));
                 let res = match &r {
-                    Ok(v) => dump_value(v),
+                    Ok(v) => v.clone(),
                     Err(_) => {
                         crashed = true;
                         panic_result()
@@ -428,7 +459,10 @@ fn run_case(id: &str, case: Case, stats: &mut Stats) -> (String, String) {
                 stats.bump("ops", "snapshot");
                 let r = guarded(|| sim.take_snapshot());
                 let res = match r {
-                    Ok(i) => format!("(num {i})"),
+                    Ok(i) => {
+                        returned_ids.push(i);
+                        format!("(num {i})")
+                    }
                     Err(_) => {
                         crashed = true;
                         panic_result()
@@ -437,17 +471,23 @@ fn run_case(id: &str, case: Case, stats: &mut Stats) -> (String, String) {
                 key.push_str(" p");
                 txt.push_str(&format!(" (snapshot {res})"));
             }
-            Op::Restore(i) => {
+            Op::Restore(k) => {
                 stats.bump("ops", "restore");
-                let r = guarded(|| sim.restore_snapshot(*i));
+                // a snapshot that was taken is restored through the id the implementation returned for it;
+                // beyond that (ill-formed history) through an id that was never returned
+                let id: u32 = match returned_ids.get(*k as usize) {
+                    Some(id) => *id,
+                    None => returned_ids.iter().copied().max().map(|m| m + 1).unwrap_or(0) + (*k - returned_ids.len() as u32),
+                };
+                let r = guarded(|| sim.restore_snapshot(id));
                 let res = if r.is_ok() {
                     "(ok)".to_string()
                 } else {
                     crashed = true;
                     panic_result()
                 };
-                key.push_str(&format!(" r{i}"));
-                txt.push_str(&format!(" (restore {i} {res})"));
+                key.push_str(&format!(" r{k}"));
+                txt.push_str(&format!(" (restore {k} {id} {res})"));
             }
         }
         if crashed {
